@@ -416,6 +416,46 @@ class History:
         self.sync_keys()
         self.record('bal', 'ok', 'send_to(broadcast=False) + store(), looked at, then transaction_delete')
 
+    def op_neighbour(self):
+        # a second wallet in the SAME database receives a payment from this one and records the output; this wallet then deletes its
+        # transaction: that concerns its own rows only (the neighbour keeps what it has, and the call does not trip over the second row)
+        from bitcoinlib.wallets import Wallet, WalletError
+        from bitcoinlib.keys import HDKey
+        if not hasattr(self, 'nb'):
+            self.nb = Wallet.create('neighbour', keys=HDKey.from_seed(bytes(self.rng.randrange(256) for _ in range(32)), witness_type='segwit'),
+                                    witness_type='segwit', network='bitcoin', db_uri=self.db)
+            self.nb_key = self.nb.get_key()
+        avail = sum(u['value'] for u in self.w.utxos())
+        try:
+            t = self.w.send_to(self.nb_key.address, max(600, avail // 6), fee=1000, broadcast=True, min_confirms=0)
+        except WalletError:
+            t = None
+        PUSH['accepted'] = []
+        self.finish_send(t, 'send_to(a key of a second wallet in the same database)')
+        if t is None or not t.pushed:
+            return
+        o_ = [o for o in t.outputs if o.address == self.nb_key.address][0]
+        self.nb.utxo_add(self.nb_key.address, o_.value, t.txid, o_.output_n, confirmations=0)
+        before = (int(self.nb.balance()), sorted((u['txid'], u['output_n'], u['value']) for u in self.nb.utxos()))
+        self.ctx.count('neighbour-wallet')
+        self.sent = [x for x in self.sent if x[0] != t.txid]
+        try:
+            self.w.transaction_delete(t.txid)
+            st = 'ok'
+        except WalletError:
+            st = 'refused'
+        except Exception as e:
+            self.reload_problems.append(('neighbour', t.txid, 'transaction_delete raised %s with a second wallet holding the same transaction id' % type(e).__name__, {}))
+            self.w.session.rollback()
+            return
+        self.record('del.%d' % self.tid(t.txid), st, 'transaction_delete(%s..) - the payment to the neighbour wallet' % t.txid[:8])
+        nbf = Wallet('neighbour', db_uri=self.db)
+        after = (int(nbf.balance()), sorted((u['txid'], u['output_n'], u['value']) for u in nbf.utxos()))
+        self.ctx.evals += 1
+        if after != before:
+            self.reload_problems.append(('neighbour', t.txid, 'deleting a transaction in one wallet changed the ledger of another wallet in the same database',
+                                         {'before': before, 'after': after}))
+
     def op_sweep(self):
         from bitcoinlib.wallets import WalletError
         rng = self.rng
@@ -543,6 +583,8 @@ class History:
                 self.op_parent_child()         # (in the other histories, once)
             if step_ == 2:
                 self.op_store_unsent()         # (in every history, once)
+            if step_ == 4 and self.hseed % 2 == 0 and self.kind.startswith('hd-'):
+                self.op_neighbour()            # (HD histories with an even number, once)
             rng.choice(pool)()
         # a final drain: sweep, then look again
         self.final = True
